@@ -56,6 +56,14 @@ pub fn families(a: &Args, rng: &mut Rng) -> Vec<Fam> {
     for t in adjacent_range_family(&pool) {
         v.push(Fam { t, fam: "adjacent-ranges" });
     }
+    // construction programs enumerated by TLC (MC_Terms), if the orchestrator generated some
+    if let Some(i) = a.rest.iter().position(|x| x == "--terms") {
+        let text = std::fs::read_to_string(&a.rest[i + 1]).expect("terms file");
+        for line in text.lines().filter(|l| !l.trim().is_empty()) {
+            let j: Value = serde_json::from_str(line).expect("term json");
+            v.push(Fam { t: crate::manager::t_from_json(&j), fam: "tlc-generated" });
+        }
+    }
     let nrand = a.sz(700, 12000);
     for i in 0..nrand {
         let d = 2 + (i % 4);
